@@ -90,6 +90,22 @@ def _(rng, v, extra):
 	return extra["t"]
 
 
+def _donor(origin):
+	def fn(rng, v, extra):
+		w = extra["w"]
+		donor = {"arith": lambda: v + w, "arith-scalar": lambda: v * 2, "rarith": lambda: 1 + v, "compare": lambda: v < w, "neg": lambda: -v, "slice": lambda: v[0:len(v)],
+			"sort": lambda: v.sort_by(), "fillna": lambda: v.fillna(0), "agg-column": lambda: extra["t2"].window(over="k", count_over="k").cols()[-1],
+			"lshift": lambda: v[0:0] << list(v), "copy": lambda: v.copy()}[origin]()
+		extra["swap_source"] = donor      # the program KEEPS the expression result and assigns it to a column
+		extra["t"].a = donor
+		return extra["t"]
+	return fn
+
+
+for _o in ("arith", "arith-scalar", "rarith", "compare", "neg", "slice", "sort", "fillna", "agg-column", "lshift", "copy"):
+	DERIVS[f"t.x = kept {_o} result (donor)"] = ("vector", _donor(_o))
+
+
 @deriv("select", "table")
 def _(rng, t, extra):
 	return t["a", "b"]
@@ -188,6 +204,56 @@ def _(rng, v, extra):
 @deriv("fillna", "vector")
 def _(rng, v, extra):
 	return v.fillna(0)
+
+
+@deriv("fillna-wider", "vector")
+def _(rng, v, extra):
+	return v.fillna(0.5)
+
+
+@deriv("fillna-wider-complex", "vector")
+def _(rng, v, extra):
+	return v.fillna(1j)
+
+
+@deriv("v+0.5", "vector")
+def _(rng, v, extra):
+	return v + 0.5
+
+
+@deriv("0.5*v", "vector")
+def _(rng, v, extra):
+	return 0.5 * v
+
+
+@deriv("v<<[0.5]", "vector")
+def _(rng, v, extra):
+	return v << [0.5, None]
+
+
+@deriv("cast-float", "vector")
+def _(rng, v, extra):
+	return v.cast(float)
+
+
+@deriv("v==w", "vector")
+def _(rng, v, extra):
+	return v == extra["w"]
+
+
+@deriv("column.fillna-wider", "table")
+def _(rng, t, extra):
+	return t["a"].fillna(0.5)
+
+
+@deriv("column+0.5", "table")
+def _(rng, t, extra):
+	return t["a"] + 0.5
+
+
+@deriv("column.cast-float", "table")
+def _(rng, t, extra):
+	return t["a"].cast(float)
 
 
 @deriv("dropna", "vector")
@@ -303,14 +369,26 @@ def run_pair(chk, spec):
 	n = spec.get("n", 3)
 	extra = {"w": Vector(V.column(rng, "int", n, "none", small=True), name="w"), "t": base_table(rng, n),
 		"t2": Table({"k": V.column(rng, "int", n, "none", small=True), "z": V.column(rng, "str", n, "none", small=True)})}
-	src = Vector(V.column(rng, "int", n, "none", small=True), name="src") if srckind == "vector" else base_table(rng, n)
+	src = Vector(V.column(rng, "int", n, rng.choice(["none", "none", "low"]), small=True), name="src") if srckind == "vector" else base_table(rng, n)
+	pre = {"source": M.snap_any(src), "w": M.snap_any(extra["w"]), "t": M.snap_any(extra["t"]), "t2": M.snap_any(extra["t2"])}
 	d = call(fn, rng, src, extra)
+	# the derivation itself is an operation that returns a new object: it must not have changed anything it read
+	if "swap_source" in extra:
+		src = extra["swap_source"]
+	if "(donor)" not in dname:
+		for k, obj in (("source", src), ("w", extra["w"]), ("t", extra["t"]), ("t2", extra["t2"])):
+			now = M.snap_any(obj)
+			if now != pre[k]:
+				chk.judged("pair", ("derive-purity", dname, k))
+				chk.fail("operations that return a new object never change their operands", f"frame/derivation-changed-operand/{dname}/{k}",
+					f"{spec!r}: {dname} changed its operand {k}: {short(pre[k], 160)} -> {short(now, 160)}")
+				return
 	if not d.ok:
 		chk.skip("pair-derivation-failed")
 		return
 	derived = d.value
 	objs = {"source": src, "derived": derived, "w": extra["w"], "t": extra["t"], "t2": extra["t2"]}
-	if dname == "t.x = v (donor)":
+	if "(donor)" in dname:
 		objs.pop("t")    # derived IS t
 	writer = objs[side]
 	if isinstance(writer, Table) and derived is writer and side == "source":
